@@ -10,7 +10,7 @@ from ..fsobs import run_observed, snap_diff, snapshot, under, write_events
 from ..pool import run_cases
 
 THEOREMS = ["C20_checker_sound", "C20_dry_run", "C20_real_run_has_effects", "C20_entry_in_range",
-            "C20_gate_table_sound", "C20_gate", "C20_blacklist_wins", "C20_whitelist_excludes", "C20_gate_in_force"]
+            "C20_gate_table_sound", "C20_gate", "C20_blacklist_wins", "C20_whitelist_excludes", "C20_gate_in_force", "C20_cli_lists_accumulate"]
 
 EMITS = ["class", "function", "argparse", "json_schema", "pydantic", "sqlalchemy", "sqlalchemy_table", "sqlalchemy_hybrid"]
 CLS = ["Alpha", "Beta", "Gamma", "Delta", "Omega", "Sigma"]
